@@ -458,8 +458,8 @@ func c01OneError(c *Ctx) {
 					if _, eq, ok := nullFact(f); ok && eq {
 						dependsOnNull = true
 					}
-					if empty, ok := an.EmptinessFact(f, func(v ssa.Value) bool { return true }); ok && empty && f.Op == token.EQL {
-						dependsOnNull = true
+					if empty, ok := an.EmptinessFact(f, func(v ssa.Value) bool { return !an.IsErrorType(v.Type()) }); ok && empty && f.Op == token.EQL {
+						dependsOnNull = true // (an `err == nil` edge is not "the value is null")
 					}
 					if f.Op == token.ILLEGAL && f.Neg {
 						if cc, ok := f.X.(*ssa.Call); ok && an.CalleeOf(cc).FullName() == pkgGraphql+".HasFieldError" {
@@ -994,7 +994,25 @@ func foldForm(fn, d *ssa.Function, dcall *ssa.Call) string {
 	for _, b := range fn.Blocks {
 		for _, in := range b.Instrs {
 			call, ok := in.(*ssa.Call)
-			if !ok || !isMiddlewareCall(call) {
+			if !ok {
+				continue
+			}
+			if !isMiddlewareCall(call) {
+				// operation-level middleware (_queryMiddleware, …) invokes the accumulated chain itself: `tmp, err := next(ctx)`
+				if call.Call.IsInvoke() || call.Call.StaticCallee() != nil {
+					continue
+				}
+				if _, isB := call.Call.Value.(*ssa.Builtin); isB {
+					continue
+				}
+				hp3, hs3, ok3 := isAccumulator(call.Call.Value)
+				if !ok3 || !hp3 || !hs3 {
+					continue
+				}
+				n++
+				if an.CanReach(call, call) {
+					return "the accumulated chain is invoked inside the loop"
+				}
 				continue
 			}
 			n++
